@@ -47,6 +47,21 @@ def _fold_local(repo, mod, node, expr, rule):
         raise AnalysisError(rule, ast.unparse(node), f'cannot fold `{ast.unparse(expr)}` to a constant: {e}')
 
 
+def _helper_of(repo, fn, call):
+    """The method `self.m(...)` / `cls.m(...)` / `Class.m(...)` calls, looked up in the class that owns `fn`."""
+    if not (isinstance(call, ast.Call) and isinstance(call.func, ast.Attribute) and isinstance(call.func.value, ast.Name)):
+        return None
+    recv = call.func.value.id
+    for m in repo.modules.values():
+        for ci in m.classes.values():
+            if any(x is fn for x in ci.methods.values()) or ci.name.split('.')[-1] == recv:
+                if recv in ('self', 'cls') or ci.name.split('.')[-1] == recv:
+                    for c in repo.mro(ci):
+                        if call.func.attr in c.methods:
+                            return c.methods[call.func.attr]
+    return None
+
+
 def _payload_kind(repo, fn, e, depth=0):
     """'text' | 'mutable hand object' | 'unknown' for the expression handed to Queue.put."""
     if depth > 4:
@@ -67,6 +82,12 @@ def _payload_kind(repo, fn, e, depth=0):
         f = ast.unparse(e.func)
         if f.endswith(('hand_to_str', 'remove_alert_word', 'receive_message', 'receive_message_from_queue', '.get', 'convert_vul', 'str', '.format', '.join', '_hand_message')):
             return 'text'
+        hf = _helper_of(repo, fn, e)
+        if hf is not None:
+            rets = [r.value for r in ast.walk(hf) if isinstance(r, ast.Return) and r.value is not None]
+            ks = {_payload_kind(repo, hf, r, depth + 1) for r in rets}
+            if ks:
+                return 'text' if ks == {'text'} else ('unknown' if 'unknown' in ks else sorted(ks - {'text'})[0])
         return 'unknown'
     if isinstance(e, ast.Subscript):
         base = e.value
@@ -82,9 +103,28 @@ def _payload_kind(repo, fn, e, depth=0):
             if 'Hands' in ann[e.id] or 'Set[' in ann[e.id]:
                 return 'mutable hand object'
         defs = [n.value for n in ast.walk(fn) if isinstance(n, ast.Assign) and len(n.targets) == 1 and isinstance(n.targets[0], ast.Name) and n.targets[0].id == e.id]
-        if not defs:
-            return 'unknown'
         ks = {_payload_kind(repo, fn, d, depth + 1) for d in defs}
+        # `a, b = self.helper(...)`: the kind of the corresponding element of what the helper returns
+        for n in ast.walk(fn):
+            if isinstance(n, ast.Assign) and len(n.targets) == 1 and isinstance(n.targets[0], ast.Tuple):
+                names = [t.id if isinstance(t, ast.Name) else None for t in n.targets[0].elts]
+                if e.id in names:
+                    i = names.index(e.id)
+                    if isinstance(n.value, ast.Tuple) and len(n.value.elts) == len(names):
+                        ks.add(_payload_kind(repo, fn, n.value.elts[i], depth + 1))
+                        continue
+                    hf = _helper_of(repo, fn, n.value)
+                    if hf is None:
+                        ks.add('unknown')
+                        continue
+                    rets = [r.value for r in ast.walk(hf) if isinstance(r, ast.Return)]
+                    if not rets or not all(isinstance(r, ast.Tuple) and len(r.elts) == len(names) for r in rets):
+                        ks.add('unknown')
+                        continue
+                    for r in rets:
+                        ks.add(_payload_kind(repo, hf, r.elts[i], depth + 1))
+        if not ks:
+            return 'unknown'
         return 'text' if ks == {'text'} else ('unknown' if 'unknown' in ks else sorted(ks - {'text'})[0])
     return 'unknown'
 
